@@ -39,7 +39,7 @@ def scripts(rng, tier, n=None):
             if rng.random() < 0.15:
                 pkt = pkt[:rng.randrange(0, len(pkt) + 1)]        # malformed
             mi = rng.randrange(len(p.keys)) if p.use_mki else 0
-            cap = len(pkt) + p.trailer(not rtcp) + rng.choice([0, 0, 7, -1])
+            cap = len(pkt) + p.trailer(not rtcp) + rng.choice([0, 0, 0, 7, 7, -1])
             lines = []
             for m in range(4):
                 L.append(pkt_op("protect_rtcp" if rtcp else "protect", 1 + m, pkt, cap=cap, mode=m, mki_index=mi))
@@ -123,4 +123,4 @@ def families(tier, seed):
     corpus = [("corpus-cryptex-6904", corpus_cryptex_6904())]
     rng2 = random.Random(seed * 1000 + 112)
     return [Family("four-modes", corpus + scripts(rng, tier), monitor=monitor),
-            Family("gcm-four-modes", with_aead(scripts, rng2, tier, n=(8 if tier == "quick" else 120)), monitor=monitor, config="openssl")]
+            Family("gcm-four-modes", with_aead(scripts, rng2, tier, n=(12 if tier == "quick" else 120)), monitor=monitor, config="openssl")]
